@@ -32,6 +32,7 @@ use super::{
 };
 
 #[derive(Debug, Clone)]
+#[allow(dead_code)]
 pub enum Honest {
     /// the circuit, with the instance it binds itself, is accepted by the reference evaluator and
     /// MockProver; payload = bound instance
